@@ -168,6 +168,36 @@ package machine
 //@ func (m *Mutation) LogArgs(mapper LogArgsMapperFn) (r string)
 //@   trusted log text only
 
+// ---- C12: lock discipline ----
+// A guarded field is written only with its mutex held for writing and read only
+// with it held (read or write), in every function that lists C12. The goroutine
+// that owns the queue is the only writer of the owner-read fields and may read
+// them without the lock.
+//@ guard Machine.activeStates by activeStatesMx owner-reads
+//@ guard Machine.clock by activeStatesMx owner-reads
+//@ guard Machine.schema by schemaMx
+//@ guard Machine.stateNames by schemaMx
+//@ guard Machine.stateNamesExport by schemaMx
+//@ guard Machine.groups by schemaMx
+//@ guard Machine.groupsOrder by schemaMx
+//@ guard Machine.queue by queueMx owner-reads
+//@ guard Machine.queueTick by queueMx owner-reads
+//@ guard Machine.queueTicksPending by queueMx
+//@ guard Machine.tracers by tracersMx
+//@ guard Machine.handlers by handlersMx
+//@ guard Machine.logEntries by logEntriesLock
+//@ guard Subscriptions.when by Mx
+//@ guard Subscriptions.whenTime by Mx
+//@ guard Subscriptions.whenArgs by Mx
+//@ guard Subscriptions.whenQuery by Mx
+//@ guard Subscriptions.whenQueue by Mx
+//@ guard Subscriptions.whenQueueEnds by Mx
+//@ guard Subscriptions.stateCtx by Mx
+//@ guard Subscriptions.whenCtx by Mx
+//@ guard Subscriptions.whenTimeCtx by Mx
+//@ guard Subscriptions.whenArgsCtx by Mx
+//@ guard Subscriptions.whenQueryCtx by Mx
+
 // ---- C01: clocks ----
 
 // ClockInv: tick parity is activity, the active list is a duplicate-free subset
@@ -210,6 +240,7 @@ package machine
 
 // SchemaInv: registered names and schema keys coincide.
 //@ pred SchemaInv(m *Machine) := nodup(m.stateNames) && (forall x string :: has(m.schema, x) <==> mem(m.stateNames, x))
+//@      && (isnil(m.stateNamesExport) || seqeq(m.stateNamesExport, m.stateNames))
 //@ pred Known(m *Machine, states S) := forall i int :: 0 <= i && i < len(states) ==> has(m.schema, states[i])
 //@ opred AllIn(names S, active S, states S) := forall i int :: 0 <= i && i < len(states) ==> mem(names, states[i]) && mem(active, states[i])
 //@ pred AllActive(m *Machine, states S) := AllIn(m.stateNames, m.activeStates, states)
@@ -898,8 +929,13 @@ package machine
 //@   ensures  inv:       ClockInv(m)
 
 //@ func (m *Machine) StateNames() (r S)
-//@   trusted shared cached copy of stateNames (its lock discipline is examined under C12)
-//@   ensures def: seqeq(r, m.stateNames)
+//@   props C12 C20
+//@   requires locks: unlocked(m.schemaMx)
+//@   requires cache: isnil(m.stateNamesExport) || seqeq(m.stateNamesExport, m.stateNames)
+//@   assigns  m.stateNamesExport, m.schemaMx
+//@   ensures  def:   seqeq(r, m.stateNames)
+//@   ensures  cache: seqeq(m.stateNamesExport, m.stateNames)
+//@   ensures  locks: unlocked(m.schemaMx)
 //@ func (t *Transition) IsHealth() (r bool)
 //@   trusted inspects the called states for the Healthcheck / Heartbeat names
 
